@@ -314,7 +314,12 @@ class DatasetWorld(object):
         if dims:
             choices += ["rename", "rename", "relabel", "relabel", "axes_setitem", "axes_setitem"]
         choices += ["append_axis", "meta"]
+        if dims:
+            choices += ["query", "query"]
         what = rng.choice(choices)
+        if what == "query":
+            # reads that populate caches (monotonicity flag, repr); the model does not move
+            return {"op": "query", "what": rng.choice(["mono", "mono", "repr", "var_mono"]), "dim": rng.choice(dims)}
         if what in ("set", "replace"):
             key = rng.choice(keys) if what == "replace" else rng.choice(KEYS)
             return {"op": "set", "key": key, "spec": self._spec(rng)}
@@ -328,6 +333,13 @@ class DatasetWorld(object):
             if not free:
                 return self._gen_mutation(rng)
             return {"op": "rename_keys", "old": old, "new": rng.choice(free), "form": rng.choice(["dict", "fn"])}
+        if what == "rename" and len(dims) >= 2 and rng.random() < 0.3:
+            # bulk rename through ds.dims = (...): any tuple of distinct names, in particular permutations of the current ones
+            free = [n for n in NEW_NAMES + DIMS if n not in dims]
+            pool_ = list(dims) + free[:2]
+            new = rng.sample(pool_, len(dims))
+            if new != list(dims):
+                return {"op": "rename_bulk", "old": list(dims), "new": new}
         if what == "rename":
             d = rng.choice(dims)
             free = [n for n in NEW_NAMES + DIMS if n not in dims]
@@ -741,6 +753,22 @@ class DatasetWorld(object):
         self.count("c13:rename_" + route)
         return "ok"
 
+    def x_rename_bulk(self, s):
+        m, ds = self.model, self.ds
+        if set(s["old"]) != set(m.dims) or len(set(s["new"])) != len(s["new"]):
+            raise Skip("stale")
+        order = list(ds.dims)
+        mapping = dict(zip(s["old"], s["new"]))
+        ds.dims = tuple(mapping[d] for d in order)
+        # simultaneous rename in the model
+        m.dims = {mapping[d]: v for d, v in m.dims.items()}
+        m.unused = set(mapping[d] for d in m.unused)
+        for v in m.vars.values():
+            v["dims"] = [mapping[d] for d in v["dims"]]
+        self.n_mut += 1
+        self.count("c13:rename_bulk" + ("_permutation" if set(s["new"]) & set(s["old"]) else ""))
+        return "ok"
+
     def x_relabel(self, s):
         m, ds = self.model, self.ds
         d, new, route = s["dim"], s["new"], s["route"]
@@ -815,6 +843,22 @@ class DatasetWorld(object):
         self.model.dims[s["name"]] = {"labels": list(s["labels"]), "attrs": {}}
         self.model.unused.add(s["name"])
         self.n_mut += 1
+        return "ok"
+
+    def x_query(self, s):
+        ds, d = self.ds, s["dim"]
+        if d not in ds.dims:
+            raise Skip("dim")
+        if s["what"] == "repr":
+            repr(ds)
+        elif s["what"] == "var_mono":
+            for k in dict.keys(ds):
+                v = dict.__getitem__(ds, k)
+                if d in v.dims:
+                    v.axes[d].is_monotonic()
+        else:
+            ds.axes[d].is_monotonic()
+        self.count("c13:cache_query")
         return "ok"
 
     def x_meta(self, s):
